@@ -325,6 +325,16 @@ Section Codec.
     | a :: t => r <- sstep s a ;; r2 <- srun (fst r) t ;; Ok (fst r2, snd r :: snd r2)
     end.
 
+  (* Respond(ctx, attemptID, ..., meta, ...) once its argument checks have passed, as the sequence
+     of atomic sections it contributes to a history of the server: addAttempt(attemptID, meta),
+     then - while it is blocked in its select - whatever else happens on the server (`mid`:
+     datagrams, dispatch iterations, its own receive STake attemptID, other attempts), then the
+     deferred removeAttempt(attemptID).  Both registries are Go maps keyed by the string: the id
+     that is removed is byte for byte the id that was registered (no normalisation of any kind;
+     the caller passes the rendezvous nonce text as it received it). *)
+  Definition respond_trace (id : list byte) (m : rmeta) (mid : list saction) : list saction :=
+    SAdd id m :: mid ++ [SRemove id].
+
 End Codec.
 
 (* RFC 5389 header condition implied by stun.IsMessage + Message.Decode + Type == BindingSuccess:
